@@ -548,6 +548,26 @@ func readMainTable(path string) (map[string]bool, error) {
 	return keys, nil
 }
 
+var extraRe = regexp.MustCompile(`(?m)^  \(("(?:[^"\\]|\\.)*"), ([0-9]+), `)
+
+// readExtra returns `siteTableExtra`: (package|kind|normalised expression) -> occurrences covered by an invariant.
+func readExtra(path string) (map[string]int, error) {
+	data, err := os.ReadFile(path)
+	if err != nil {
+		return nil, err
+	}
+	keys := map[string]int{}
+	for _, m := range extraRe.FindAllStringSubmatch(string(data), -1) {
+		k, err := strconv.Unquote(m[1])
+		if err != nil {
+			return nil, fmt.Errorf("extra table: cannot unquote %s", m[1])
+		}
+		n, _ := strconv.Atoi(m[2])
+		keys[k] += n
+	}
+	return keys, nil
+}
+
 func readTheoremKeys(path string) (map[string]bool, error) {
 	data, err := os.ReadFile(path)
 	if err != nil {
@@ -612,7 +632,11 @@ func classifyAll(repo, verif string) (*allResult, error) {
 	if err != nil {
 		return nil, err
 	}
-	thm, err := readTheoremKeys(filepath.Join(verif, "lean", "NA", "Proofs", "C20Sites.lean"))
+	thm, err := readMainTable(filepath.Join(verif, "lean", "NA", "Proofs", "C20Sites.lean"))
+	if err != nil {
+		return nil, err
+	}
+	extra, err := readExtra(filepath.Join(verif, "lean", "NA", "Proofs", "C20Sites.lean"))
 	if err != nil {
 		return nil, err
 	}
@@ -638,13 +662,19 @@ func classifyAll(repo, verif string) (*allResult, error) {
 		}
 	}
 	r.Residual = rest
+	usedExtra := map[string]int{}
 	for i := range sites {
 		s := &sites[i]
 		if s.Class == "" {
-			if rest[gkey(s)] <= orc[gkey(s)] {
-				s.Class = "oracle"
-			} else {
+			k := gkey(s)
+			switch {
+			case rest[k] > orc[k]+extra[k]:
 				s.Class = "unclassified"
+			case usedExtra[k]+s.Count <= extra[k]:
+				usedExtra[k] += s.Count
+				s.Class = "theorem" // covered by an invariant (siteTableExtra)
+			default:
+				s.Class = "oracle"
 			}
 		}
 		r.Counts[s.Class]++
@@ -656,14 +686,14 @@ func classifyAll(repo, verif string) (*allResult, error) {
 	}
 	sort.Strings(gks)
 	for _, k := range gks {
-		if rest[k] > orc[k] {
+		if rest[k] > orc[k]+extra[k] {
 			r.Unclassified = append(r.Unclassified,
-				fmt.Sprintf("%s (%d occurrences, %d listed as oracle-only; in %s)", k, rest[k], orc[k], strings.Join(fns[k], ", ")))
+				fmt.Sprintf("%s (%d occurrences, %d covered by an invariant, %d listed as oracle-only; in %s)", k, rest[k], extra[k], orc[k], strings.Join(fns[k], ", ")))
 		}
 	}
 	for k, n := range orc {
-		if rest[k] < n {
-			r.StaleOracle = append(r.StaleOracle, fmt.Sprintf("%s (%d listed, %d found)", k, n, rest[k]))
+		if rest[k] < n+extra[k] {
+			r.StaleOracle = append(r.StaleOracle, fmt.Sprintf("%s (%d listed, %d found)", k, n+extra[k], rest[k]))
 		}
 	}
 	sort.Strings(r.StaleOracle)
